@@ -192,3 +192,104 @@ pub fn single_fault_variants(
     }
     out
 }
+
+// ---------------------------------------------------------------------------------------------
+// probe workload helpers (server-side properties)
+
+use crate::exec::{ProbeMsg, TokenSpec, When};
+
+pub struct Tids(pub u32);
+
+impl Tids {
+    pub fn next(&mut self) -> Vec<u8> {
+        self.0 += 1;
+        let mut t = vec![b'P'];
+        t.extend_from_slice(&self.0.to_be_bytes()[1..]);
+        t
+    }
+}
+
+pub fn step(sc: &mut Scenario, when: When, op: Op) -> usize {
+    sc.steps.push(crate::exec::Step { when, op });
+    sc.steps.len() - 1
+}
+
+/// get_peers from `from` followed (1 ms after its reply) by announce_peer with the token just
+/// received. Returns (get step, announce step).
+pub fn announce_chain(
+    sc: &mut Scenario,
+    tids: &mut Tids,
+    when: When,
+    from: SocketAddr,
+    to: SocketAddr,
+    id: &[u8; 20],
+    ih: &[u8; 20],
+    port: Option<u16>,
+) -> (usize, usize) {
+    let g = step(
+        sc,
+        when,
+        Op::Probe { from, to, msg: ProbeMsg::Bytes(get_peers(&tids.next(), id, ih, None)), timeout_ms: 5_000 },
+    );
+    let a = step(
+        sc,
+        When::After { step: g, delay: 1 },
+        Op::Probe {
+            from,
+            to,
+            msg: ProbeMsg::Announce { tid: tids.next(), id: *id, ih: *ih, port, token: TokenSpec::FromStep(g) },
+            timeout_ms: 5_000,
+        },
+    );
+    (g, a)
+}
+
+/// The contact address an announce from `from` with `port` stands for.
+pub fn contact_of(from: SocketAddr, port: Option<u16>) -> SocketAddr {
+    match port {
+        Some(p) => SocketAddr::new(from.ip(), p),
+        None => from,
+    }
+}
+
+/// Pairs every response/error a real node sent with the query it answers: (query wire, reply wire).
+/// A reply answers the most recent not-yet-answered delivered query with the same transaction id
+/// from the address the reply goes to.
+pub fn pair_replies<'a>(
+    log: &'a [crate::log::Ev],
+    node: SocketAddr,
+) -> (Vec<(crate::exec::Wire<'a>, crate::exec::Wire<'a>)>, Vec<crate::exec::Wire<'a>>, Vec<crate::exec::Wire<'a>>) {
+    use crate::log::Ev;
+    let mut open: Vec<crate::exec::Wire<'a>> = Vec::new(); // delivered queries not yet answered
+    let mut pairs = Vec::new();
+    let mut orphans = Vec::new(); // replies without a query
+    for (idx, e) in log.iter().enumerate() {
+        match e {
+            Ev::Deliver { t, seq, src, dst, bytes, dst_kind, .. } if *dst == node && *dst_kind == crate::log::EpKind::Real => {
+                // the node reads at most 1500 bytes of a datagram
+                let cut = &bytes[..bytes.len().min(1500)];
+                let msg = crate::krpc::Msg::parse(cut);
+                if msg.as_ref().map(|m| m.is_query()).unwrap_or(false) {
+                    open.push(crate::exec::Wire { idx, t: *t, seq: *seq, src: *src, dst: *dst, bytes: cut, msg, queued: true });
+                }
+            }
+            Ev::Send { t, seq, src, dst, bytes, .. } if *src == node => {
+                let msg = crate::krpc::Msg::parse(bytes);
+                let is_reply = msg.as_ref().map(|m| !m.is_query()).unwrap_or(false);
+                if !is_reply {
+                    continue;
+                }
+                let w = crate::exec::Wire { idx, t: *t, seq: *seq, src: *src, dst: *dst, bytes, msg, queued: true };
+                let tid = w.msg.as_ref().map(|m| m.t.clone()).unwrap_or_default();
+                if let Some(pos) = open.iter().position(|q| q.src == *dst && q.msg.as_ref().map(|m| m.t == tid).unwrap_or(false)) {
+                    let q = open.remove(pos);
+                    pairs.push((q, w));
+                } else {
+                    orphans.push(w);
+                }
+            }
+            _ => {}
+        }
+    }
+    (pairs, orphans, open)
+}
